@@ -625,6 +625,32 @@ def rule_f(res: Results, idx: Index, m: Module, passes) -> None:
                     res.violation("R-C02f", site, key, f"rewrite commit `{src(c, 60)}` of pass '{name}' is not dominated by its precondition {' / '.join(group)}: {how}", fi.qualname)
 
 
+# helper -> callees that must hold (positively) on every path to a non-None return of the helper
+HELPER_INNER_REQUIREMENTS: Dict[str, List[str]] = {
+    "_match_mul_sigmoid_silu_inputs": ["_same_value"],   # x * Sigmoid(x): both operands are the same value
+}
+
+
+def rule_f_inner(res: Results, idx: Index, m: Module) -> None:
+    for hname, reqs in HELPER_INNER_REQUIREMENTS.items():
+        h = m.funcs.get(hname)
+        if h is None:
+            raise AnalysisError(f"precondition helper {hname} no longer exists")
+        for alt in reqs:
+            key = _key(h, f"requires::{alt}")
+            if _helper_requires(h, alt):
+                res.ok("R-C02f", f"{OPT}:{h.node.lineno}", key, f"{hname}() only returns a match after {alt}() held", h.qualname)
+            else:
+                res.violation("R-C02f", f"{OPT}:{h.node.lineno}", key, f"{hname}() can return a match without {alt}() having held: the rewrite it licenses is no longer an identity", h.qualname)
+        # the op-type test of the matched producer
+        sig = [n for n in walk_no_nested(h.node) if isinstance(n, ast.Compare) and isinstance(n.left, ast.Attribute) and n.left.attr == "op_type" and isinstance(n.comparators[0], ast.Constant)]
+        key = _key(h, "requires::op_type")
+        if sig:
+            res.ok("R-C02f", f"{OPT}:{sig[0].lineno}", key, f"matched producer is tested to be {sig[0].comparators[0].value!r}", h.qualname)
+        else:
+            res.violation("R-C02f", f"{OPT}:{h.node.lineno}", key, f"{hname}() no longer tests the operator type of the matched producer", h.qualname)
+
+
 def _precondition_holds(idx: Index, m: Module, fi: FuncInfo, du, conds, group: Tuple[str, ...], pf: Optional[PassFlow] = None) -> Tuple[bool, str]:
     for alt in group:
         if alt.startswith("cmp:"):
@@ -712,3 +738,4 @@ def run(res: Results, idx: Index, tier: str) -> None:
     rule_c(res, idx, m)
     rule_de(res, idx, m, passes)
     rule_f(res, idx, m, passes)
+    rule_f_inner(res, idx, m)
